@@ -66,7 +66,7 @@ fn impl_member(v: &[ImplInfo], self_ty: &str, trait_: Option<&str>, name: &str, 
     Err(format!("`{self_ty}::{name}` not found"))
 }
 
-fn expect_member(v: &[ImplInfo], self_ty: &str, trait_: Option<&str>, name: &str, env: &CfgEnv, want: &str) -> Result<(), String> {
+pub(crate) fn expect_member(v: &[ImplInfo], self_ty: &str, trait_: Option<&str>, name: &str, env: &CfgEnv, want: &str) -> Result<(), String> {
     let got = impl_member(v, self_ty, trait_, name, env)?;
     if got != want {
         return Err(format!("`{self_ty}::{name}` is `{got}`, the length-constructor convention expects `{want}`"));
